@@ -92,6 +92,12 @@ class SetupEnv:
         _guarded_on_assume(self.ctx, shape, z3.simplify(term), guard)
 
 
+def self_obj(cls, attrs):
+    """the `self` a contract's setup provides: attribute reads that the setup did not anticipate make the function
+    *unsupported* (the code grew new state) rather than raising AttributeError"""
+    return Obj(cls, attrs, oid=-7)
+
+
 class Contract:
     target = None          # "module:qualname"
     props = ()             # property ids this contract serves
@@ -227,7 +233,9 @@ def _is_proper_subterm(sub, top, I):
 def _lower_arg(v):
     try:
         return lower(v)
-    except V.LowerError:
+    except V.LowerError as e:
+        import sys
+        print(f"note: argument not lowered ({e})", file=sys.stderr)
         return None
 
 
